@@ -250,18 +250,39 @@ def r04_1_other_components(chk):
     attr = ix.get_class("Attribute")
     # set component
     mk = eset.lookup("_make_set_component_bytes")
-    if mk is None:
-        raise AnalysisError("EFLRSet._make_set_component_bytes not found (the set component is built elsewhere): the "
-                            "set-component obligations cannot be evaluated on this tree")
-    chk.consult(mk)
+    mbb0 = eset.lookup("_make_body_bytes")
+    if mk is not None:
+        chk.consult(mk)
     for named in (True, False):
         st = State()
         L = LinExpr.sym("len_set_name")
         st.add(ge(L, 1))
-        obj = st.new_obj(eset, tag="set", fields={
-            "set_name": SeqV("str", L, [("param", L, "set_name")]) if named else NONE,
-            "_set_type_struct": SeqV("bytes", LinExpr.sym("len_type"), [("ident", None, ("set_type", None))])})
-        outs = [o for o in it.call_function(mk, [obj], {}, st, mk.node) if o.kind == "val"]
+        flds = {"set_name": SeqV("str", L, [("param", L, "set_name")]) if named else NONE,
+                "_set_type_struct": SeqV("bytes", LinExpr.sym("len_type"), [("ident", None, ("set_type", None))])}
+        if mk is not None:
+            obj = st.new_obj(eset, tag="set", fields=flds)
+            outs = [o for o in it.call_function(mk, [obj], {}, st, mk.node) if o.kind == "val"]
+        else:
+            # the set component is built inside _make_body_bytes: interpret that, with the template and the object
+            # writers summarised, and take what precedes the template
+            itb = _mk_interp(ix, "none")
+            tpl0 = eset.lookup("_make_template_bytes")
+            mib0 = item_cls.lookup("make_item_body_bytes")
+            itb.summaries[tpl0.qualname] = lambda interp, args, kwargs, s, node: interp.val(
+                s, SeqV("bytes", 5, [("template", None, None)]))
+            itb.summaries[mib0.qualname] = lambda interp, args, kwargs, s, node: interp.val(
+                s, SeqV("bytes", 7, [("object", None, None)]))
+            flds[item_list_field(ix)] = st.new_list([st.new_obj(item_cls, tag="item0")])
+            obj = st.new_obj(eset, tag="set", fields=flds)
+            outs = []
+            for o in itb.call_function(mbb0, [obj], {}, st, mbb0.node):
+                if o.kind == "val" and isinstance(o.value, SeqV):
+                    idx = next((i for i, p_ in enumerate(o.value.pieces) if p_[0] == "template"), None)
+                    if idx is None:
+                        raise AnalysisError("EFLRSet._make_body_bytes: no template piece in the set body")
+                    o.value = SeqV("bytes", LinExpr.sym("len_comp"), list(o.value.pieces[:idx]))
+                    outs.append(o)
+        where_mk = (mk or mbb0)
         for k, o in enumerate(outs):
             ps = o.value.pieces
             first = ps[0][2] if ps and ps[0][0] == "const" else None
@@ -270,7 +291,7 @@ def r04_1_other_components(chk):
                 (ref.SET_DESCRIPTOR_TYPE, ["ident"])
             chk.require(first == bytes([exp_d]) and kinds == exp_k, "R04.1",
                         f"set-component:{'named' if named else 'unnamed'}:path{k}",
-                        f"set component is {first!r} + {kinds}; expected {bytes([exp_d])!r} + {exp_k}", mk.where)
+                        f"set component is {first!r} + {kinds}; expected {bytes([exp_d])!r} + {exp_k}", where_mk.where)
     # object component + absent attributes
     mib = item_cls.lookup("make_item_body_bytes")
     mab = item_cls.lookup("_make_attrs_bytes")
@@ -313,8 +334,9 @@ def r04_1_other_components(chk):
     tpl = eset.lookup("_make_template_bytes")
     chk.consult(mbb, tpl)
     it2 = _mk_interp(ix, "none")
-    it2.summaries[mk.qualname] = lambda interp, args, kwargs, s, node: interp.val(
-        s, SeqV("bytes", 3, [("set-component", None, None)]))
+    if mk is not None:
+        it2.summaries[mk.qualname] = lambda interp, args, kwargs, s, node: interp.val(
+            s, SeqV("bytes", 3, [("set-component", None, None)]))
     it2.summaries[tpl.qualname] = lambda interp, args, kwargs, s, node: interp.val(
         s, SeqV("bytes", 5, [("template", None, None)]))
     it2.summaries[mib.qualname] = lambda interp, args, kwargs, s, node: interp.val(
@@ -322,10 +344,16 @@ def r04_1_other_components(chk):
     for n_items in (0, 1, 3):
         st = State()
         items = [st.new_obj(item_cls, tag=f"item{i}") for i in range(n_items)]
-        sobj = st.new_obj(eset, tag="set", fields={item_list_field(ix): st.new_list(items), "set_name": NONE})
+        sobj = st.new_obj(eset, tag="set", fields={
+            item_list_field(ix): st.new_list(items), "set_name": NONE,
+            "_set_type_struct": SeqV("bytes", LinExpr.sym("len_type"), [("ident", None, ("set_type", None))])})
         outs = [o for o in it2.call_function(mbb, [sobj], {}, st, mbb.node) if o.kind == "val"]
         for k, o in enumerate(outs):
             ps = o.value.pieces if isinstance(o.value, SeqV) else None
+            if mk is None and ps is not None and n_items:
+                # the pieces of the inlined set component count as one
+                idx = next((i for i, p_ in enumerate(ps) if p_[0] == "template"), 0)
+                ps = [("set-component", None, None)] + list(ps[idx:])
             if n_items == 0:
                 chk.require(isinstance(o.value, SeqV) and entails(o.st.cons, eq(o.value.length, 0)), "R04.5",
                             f"empty-set-empty-body:path{k}", "a set without objects produces a non-empty record body",
